@@ -640,6 +640,12 @@ fn format_literal(
             write_infinity_f16(output, context);
         }
         ast::Literal::Float16(v) if *v == f32::NEG_INFINITY => write!(output, "-INFINITY").unwrap(),
+        ast::Literal::Float16(v) if *v == (*v as i64 as f32) => {
+            write!(output, "{}.0h", *v as i64).unwrap()
+        }
+        ast::Literal::Float16(v) if *v > i64::MAX as f32 || *v < i64::MIN as f32 => {
+            write!(output, "{v}.0h").unwrap()
+        }
         ast::Literal::Float16(v) => write!(output, "{v}h").unwrap(),
         ast::Literal::Float32(v) if *v == f32::INFINITY => {
             write_infinity_f32(output, context);
@@ -664,6 +670,12 @@ fn format_literal(
         ast::Literal::Float64(v) if *v == f64::NEG_INFINITY => {
             output.push('-');
             write_infinity_f64(output, context);
+        }
+        ast::Literal::Float64(v) if *v == (*v as i64 as f64) => {
+            write!(output, "{}.0L", *v as i64).unwrap()
+        }
+        ast::Literal::Float64(v) if *v > i64::MAX as f64 || *v < i64::MIN as f64 => {
+            write!(output, "{v}.0L").unwrap()
         }
         ast::Literal::Float64(v) => write!(output, "{v}L").unwrap(),
         ast::Literal::String(s) => write!(output, "\"{s}\"").unwrap(),
